@@ -60,7 +60,7 @@ _PLAIN_BUILTINS = {"len", "bytes", "int", "str", "bool", "list", "tuple", "dict"
                    "bytearray", "abs", "iter", "next", "callable", "id", "hash", "vars", "dir", "map", "filter", "ord", "chr"}
 
 
-_SPEC_BUILTINS = {"HASH", "UUID5", "HEX", "ENC", "utf8", "TAG", "NAMESPACE_DNS", "UNHEX"}
+_SPEC_BUILTINS = {"HASH", "UUID5", "HEX", "ENC", "utf8", "TAG", "NAMESPACE_DNS", "UNHEX", "FILE", "TEXTFILE", "EXISTS"}
 
 
 def builtin_name(it, name):
@@ -162,7 +162,8 @@ def int_div_mod(it, a: VInt, b: VInt):
 
 
 def byte_decomp(it, v: VInt, n: int, order: str):
-    """n byte terms (big-endian order in the returned list) with v == sum b_i*256**i; caller proved 0 <= v < 256**n."""
+    """n byte terms (big-endian order in the returned list) with v == sum b_i*256**i whenever 0 <= v < 256**n
+    (the defining facts are guarded by the range, so an out-of-range use in a total clause stays consistent)."""
     if v.conc is not None:
         bs = v.conc.to_bytes(n, "big")
         return [VInt(x) for x in bs]
@@ -171,7 +172,7 @@ def byte_decomp(it, v: VInt, n: int, order: str):
         bs = [z3.Int(it.fresh_name(f"byte{i}")) for i in range(n)]  # bs[0] most significant
         for x in bs:
             it.assume(z3.And(x >= 0, x <= 255))
-        it.assume(v.e == z3.Sum([bs[i] * (256 ** (n - 1 - i)) for i in range(n)]))
+        it.assume(z3.Implies(z3.And(v.e >= 0, v.e < 256 ** n), v.e == z3.Sum([bs[i] * (256 ** (n - 1 - i)) for i in range(n)])))
         it.euclid[key] = [VInt(x) for x in bs]
     return it.euclid[key]
 
@@ -195,8 +196,10 @@ def int_to_bytes(it, v: VInt, n: VInt, order: str, signed=False):
         try:
             return VBytes(v.conc.to_bytes(n, order))
         except OverflowError:
+            if it.pure:
+                return VBytes(bytes(n))
             it.raise_(OverflowError, "int too big to convert")
-    if not it.branch(z3.And(v.e >= 0, v.e < 256 ** n)):
+    if not it.pure and not it.branch(z3.And(v.e >= 0, v.e < 256 ** n)):
         it.raise_(OverflowError, "int too big to convert")
     bs = byte_decomp(it, v, n, order)
     if order == "little":
@@ -796,6 +799,56 @@ def _clamp_slice(it, lo, hi, length: VInt):
     return norm(lo, VInt(0)), norm(hi, length)
 
 
+def _flatten_concat(e):
+    if z3.is_app(e) and e.decl().kind() == z3.Z3_OP_SEQ_CONCAT:
+        out = []
+        for ch in e.children():
+            out.extend(_flatten_concat(ch))
+        return out
+    return [e]
+
+
+def _cat_terms(parts):
+    if not parts:
+        return z3.Empty(BSort)
+    return parts[0] if len(parts) == 1 else z3.Concat(*parts)
+
+
+def _slice_concat(it, obj: VBytes, lo, hi):
+    """Slice of a concatenation whose bounds coincide (syntactically, after simplification) with part boundaries:
+    x[len(p1)+..+len(pj):] and x[:len(p1)+..+len(pj)] are answered structurally, which keeps the solver away from
+    nested extract/concat reasoning.  Returns None when the bounds do not line up."""
+    parts = _flatten_concat(obj.e)
+    if len(parts) < 2:
+        return None
+    def as_term(x):
+        if x is None or isinstance(x, VNone):
+            return None
+        if isinstance(x, VBool):
+            x = it.to_int(x)
+        return z3.simplify(x.e) if isinstance(x, VInt) else False
+    lo_t, hi_t = as_term(lo), as_term(hi)
+    if lo_t is False or hi_t is False:
+        return None
+    sums = [z3.IntVal(0)]
+    for p in parts:
+        sums.append(z3.simplify(sums[-1] + z3.Length(p)))
+    def boundary(t):
+        if t is None:
+            return None
+        for j, sm in enumerate(sums):
+            if z3.eq(sm, t):
+                return j
+        return -1
+    j0 = 0 if lo_t is None else boundary(lo_t)
+    j1 = len(parts) if hi_t is None else boundary(hi_t)
+    if j0 == -1 or j1 == -1:
+        return None
+    if j1 < j0:
+        return VBytes(b"")
+    return VBytes(z3.simplify(_cat_terms(parts[j0:j1])))
+
+
 def getslice(it, obj, lo, hi, step):
     if step is not None and not (isinstance(step, VInt) and step.conc == 1) and not isinstance(step, VNone):
         raise OutOfSubset("slice with a step")
@@ -808,6 +861,10 @@ def getslice(it, obj, lo, hi, step):
         return VList(items) if isinstance(obj, VList) else VTuple(items)
     if isinstance(obj, VBytes):
         n = bytes_len(obj)
+        if obj.conc is None:
+            r = _slice_concat(it, obj, lo, hi)
+            if r is not None:
+                return r
         a, b = _clamp_slice(it, lo, hi, n)
         if obj.conc is not None and a.conc is not None and b.conc is not None:
             return VBytes(obj.conc[a.conc:b.conc])
@@ -1160,6 +1217,11 @@ def instantiate_py(it, py, args, kwargs):
 
 
 def iterate_symbolic(it, v, unpack):
+    if isinstance(v, VSeq) and unpack is not None:
+        n = z3.Length(v.e)
+        if not it.branch(n == unpack):
+            it.raise_(ValueError, "too many / not enough values to unpack")
+        return [VStr(v.e[i]) if v.kind == "str" else VInt(v.e[i]) for i in range(unpack)]
     if isinstance(v, VOpaque):
         from . import plain
         return plain.iterate(it, v, unpack)
